@@ -1614,6 +1614,8 @@ namespace bloch::runtime {
             // calls made by the destructor body use (and clear) the return slot; a value being
             // returned while this object goes out of scope must survive them
             Value savedReturnValue = m_returnValue;
+            // 'this' inside the destructor: a reference that does not own the dying object
+            std::shared_ptr<Object> self(obj, [](Object*) {});
             for (RuntimeClass* cur = obj->cls; cur; cur = cur->base) {
                 if (!cur->destructorDecl || !cur->destructorDecl->body)
                     continue;
@@ -1631,7 +1633,7 @@ namespace bloch::runtime {
                 beginFrame();
                 Value thisVal;
                 thisVal.type = Value::Type::Object;
-                thisVal.objectValue = std::shared_ptr<Object>(obj, [](Object*) {});
+                thisVal.objectValue = self;
                 thisVal.className = cur->name;
                 m_env.back()["this"] = {thisVal, false, true};
                 try {
@@ -1652,6 +1654,11 @@ namespace bloch::runtime {
             }
             m_hasReturn = savedReturn;
             m_returnValue = savedReturnValue;
+            // If the destructor stored 'this' somewhere (a static, another object), that reference
+            // outlives the object: keep the emptied shell allocated instead of freeing memory that
+            // is still reachable.
+            if (self.use_count() > 1)
+                obj->escapedDestructor = true;
         }
         // Reset tracked qubits
         if (obj->cls) {
@@ -2634,7 +2641,8 @@ namespace bloch::runtime {
             }
             auto deleter = [this](Object* obj) {
                 destroyObject(obj, !obj->skipDestructor);
-                delete obj;
+                if (!obj->escapedDestructor)
+                    delete obj;
             };
             auto obj = std::shared_ptr<Object>(new Object{}, deleter);
             obj->cls = cls;
